@@ -15,7 +15,7 @@ def run(ck):
     cloudcheck.run_family(ck, "cloud-fault", 200 if quick else 5000, CLAUSE + " [object store]",
                           lambda c: c["features"].get("faults", 0) >= 1)
     # local and git: named failpoints between the internal steps, then every handle is reopened
-    for kind, q, t in (("local", 100, 2000), ("git", 30, 300), ("gitremote", 40, 300), ("http", 24, 300)):
+    for kind, q, t in (("local", 100, 2000), ("git", 30, 300), ("gitremote", 40, 300), ("gitoffline", 16, 200), ("gitfresh", 16, 200), ("http", 24, 300)):
         synccheck.run_family(ck, "backend", q if quick else t, CLAUSE + " [%s]" % kind,
                              lambda c: c["features"].get("faults", 0) >= 1,
                              extra_args=["--kind", kind, "--faults"],
